@@ -197,7 +197,7 @@ theorem snapshots_scanNd (dets : List Dev) (trig : Dev → Bool) (motors : List 
   simp only [List.append_assoc] at h1 h2 ⊢
   rw [← List.append_assoc, snapshots_append, snapshots_inert _ _ h1, finalPos_inert _ _ h1,
     List.nil_append, snapshots_append, snapshots_inert _ _ h2, List.append_nil]
-  exact snapshots_perSteps dets trig traj Cache.empty p0 (by intro m x hx; simp [Cache.empty] at hx) hnd
+  exact snapshots_perSteps dets trig traj Cache.empty p0 (by intro m x hx; simp [Cache.empty, Gen.cacheInit] at hx) hnd
 
 /-! ### shape of the per-point blocks -/
 
@@ -233,7 +233,7 @@ theorem isPointBlock_oneNdStep (dets : List Dev) (trig : Dev → Bool) (s : Step
     blockFrom, blockFrom_moves, List.nil_append]
   rw [blockFrom_triggers]
   split
-  · simp only [List.nil_append, List.cons_append, blockFrom]; exact blockFrom_reads _
+  · simp only [List.nil_append, blockFrom]; exact blockFrom_reads _
   · simp only [List.nil_append, List.cons_append, blockFrom]; exact blockFrom_reads _
 
 theorem mem_perSteps_isPointBlock (dets : List Dev) (trig : Dev → Bool) (traj : List Step) (c : Cache) :
